@@ -124,9 +124,9 @@ class _TLSLineClient:
         return got == want
 
 
-async def _tcp_cell(position: str, exc_name: str, tls: bool) -> dict[str, Any]:
+async def _tcp_cell(position: str, exc_name: str, tls: bool, buffered: bool = False) -> dict[str, Any]:
     from easynetwork.exceptions import StreamProtocolParseError
-    from easynetwork.protocol import StreamProtocol
+    from easynetwork.protocol import BufferedStreamProtocol, StreamProtocol
     from easynetwork.serializers.line import StringLineSerializer
     from easynetwork.servers.handlers import AsyncStreamRequestHandler
 
@@ -179,6 +179,11 @@ async def _tcp_cell(position: str, exc_name: str, tls: bool) -> dict[str, Any]:
                         raise
                     boom()
                 return
+            except Exception:
+                # a lost connection is a disconnection (on_disconnection), never an exception handed to the handler: no disjunct of the
+                # trace specification takes this event
+                ev("thrown", cid)
+                raise
             if cid == FAULTY and position == "handle_after_yield":
                 boom()
             await client.send_packet("a" + req[1:])
@@ -194,7 +199,7 @@ async def _tcp_cell(position: str, exc_name: str, tls: bool) -> dict[str, Any]:
         # a stalled / broken handshake must be abandoned after ssl_handshake_timeout (5 s), whatever the other timeouts are: in those cells the
         # shutdown timeout is longer than the observation window, elsewhere it is short so that closing a silent client ends within it
         kw = {"ssl": tlspeer.server_context(), "ssl_handshake_timeout": 5, "ssl_shutdown_timeout": 30 if position in SETUP_FAULTS_TLS else 1}
-    fx = srvharness.TCPServerFixture(StreamProtocol(StringLineSerializer()), Handler(), **kw)
+    fx = srvharness.TCPServerFixture((BufferedStreamProtocol if buffered else StreamProtocol)(StringLineSerializer()), Handler(), **kw)
     await fx.start()
     sent = {1: 0, 2: 0, 3: 0}
 
@@ -250,6 +255,12 @@ async def _tcp_cell(position: str, exc_name: str, tls: bool) -> dict[str, Any]:
             f._t = asyncio.ensure_future(f.peer.write(b"\xff\xfe\n"))
         else:
             f.mc.feed(b"\xff\xfe\n")
+    elif position == "tls_ragged_close":
+        # after a completed handshake and one exchange the faulty client's TCP connection ends without a TLS close notification:
+        # in standard-compatible mode this is a connection error, which the server treats as any other disconnection
+        await exchange(f, 2)
+        ev("fault")
+        f.mc.close()
     elif position == "on_disconnection":
         await exchange(f, 2)
         if tls:
@@ -275,7 +286,7 @@ async def _tcp_cell(position: str, exc_name: str, tls: bool) -> dict[str, Any]:
         "faulty": 2,
         "stream": True,
         "events": traces.uniform(events, EVD),
-        "meta": f"{'TLS' if tls else 'TCP'} position={position} exception={exc_name}",
+        "meta": f"{'TLS' if tls else 'TCP'}{' (buffered protocol)' if buffered else ''} position={position} exception={exc_name}",
     }
 
 
@@ -511,6 +522,10 @@ def run(chk: Check) -> None:
     tls_excs = excs if not quick else ["ValueError", "ExceptionGroup", "ConnectionResetError"]
     for pos in SETUP_FAULTS_TLS:
         cell(lambda: _tcp_cell(pos, "-", True), f"TLS {pos}")
+    for b in (False, True):
+        cell(lambda: _tcp_cell("tls_ragged_close", "-", True, buffered=b), f"TLS tls_ragged_close buffered={b}")
+    cell(lambda: _tcp_cell("reset_after_accept", "-", False, buffered=True), "TCP (buffered protocol) reset_after_accept")
+    cell(lambda: _tcp_cell("on_disconnection", "ValueError", True, buffered=True), "TLS (buffered protocol) on_disconnection ValueError")
     for pos in ("handle_after_yield", "onconn_coro_before", "on_disconnection") if quick else TCP_POSITIONS:
         for en in tls_excs:
             if en == "StreamProtocolParseError" and pos != "handle_on_thrown_error":
